@@ -33,6 +33,9 @@ def run(chk, ix, tier):
     # the reporter reads its switches (behave.reporter.junit.*) from the userdata when it is created: -D defines are merged before
     from .. import rules_config
     rules_config.check_userdata_before_consumers(chk, ix)
+    # every test case reports the final status of ITS scenario: outline rows do not share Step objects (shared with C02)
+    from .. import rules_order
+    rules_order.check_step_order(chk, ix)
     rules_junit.check_illegal_char_table(chk, ix)
     for r, n in (("B1", 1), ("B4", 1), ("J1", 10), ("J2", 10), ("J3", 10), ("J4", 10), ("J5", 1), ("J6", 1), ("J7", 7)):
         chk.require_instances(r, n)
